@@ -2888,7 +2888,17 @@ def invalid_escape_sequence(source: str) -> str:
     """
     root = core.parse(source)
 
+    # The constant parts of an f-string are not string literals of their own
+    # (since Python 3.12 they have their own source range, though).
+    fstring_parts = {
+        id(value)
+        for fstring in core.walk(root, ast.JoinedStr)
+        for value in fstring.values
+    }
+
     for node in core.walk(root, ast.Constant(value=str)):
+        if id(node) in fstring_parts:
+            continue
         code = core.get_code(node, source)
         # Normal string containing backslash but no valid escape sequences
         if not (code and code[0] in "'\"" and "\\" in code):
